@@ -1,6 +1,7 @@
 // C04 (view level, constant shapes, symbolic element values), part 1: replicating / selecting / joining views have NumPy's shape and,
 // at every index, a copy of the source element NumPy's definition designates.
 #include "cview.hpp"
+#define HV_ID "C04.view.has_value"
 #include "nmtools/array/view/tile.hpp"
 #include "nmtools/array/view/repeat.hpp"
 #include "nmtools/array/view/roll.hpp"
@@ -14,73 +15,73 @@
 #include "nmtools/array/view/column_stack.hpp"
 constexpr size_t Z = 0;
 // ---- tile
-void ob_c04i_tile(const carr<2,3>& a)
-{
-    { auto v = nm::unwrap(view::tile(a, std::array<int,2>{2,2})); EXPECT_VIEW2("C04.view.tile.shape", "C04.view.tile.element", v, 4,6, a(i%2, j%3), 0); }
-    { auto v = nm::unwrap(view::tile(a, std::array<int,1>{2})); EXPECT_VIEW2("C04.view.tile.shape", "C04.view.tile.short_reps_apply_to_trailing_axes", v, 2,6, a(i, j%3), 1); }
-    { auto v = nm::unwrap(view::tile(a, std::array<int,3>{2,1,2})); EXPECT_VIEW3("C04.view.tile.shape", "C04.view.tile.long_reps_prepend_axes", v, 2,2,6, a(j, k%3), 2); }
+void ob_c04i_tile(const ARR<2,3>& a)
+{ PIN(a, 2,3);
+    { VIEW(v, view::tile(a, std::array<int,2>{2,2})); EXPECT_VIEW2("C04.view.tile.shape", "C04.view.tile.element", v, 4,6, a(i%2, j%3), 0); }
+    { VIEW(v, view::tile(a, std::array<int,1>{2})); EXPECT_VIEW2("C04.view.tile.shape", "C04.view.tile.short_reps_apply_to_trailing_axes", v, 2,6, a(i, j%3), 1); }
+    { VIEW(v, view::tile(a, std::array<int,3>{2,1,2})); EXPECT_VIEW3("C04.view.tile.shape", "C04.view.tile.long_reps_prepend_axes", v, 2,2,6, a(j, k%3), 2); }
 }
 // ---- repeat
-void ob_c04i_repeat(const carr<2,3>& a)
-{
-    { auto v = nm::unwrap(view::repeat(a, 2, 1)); EXPECT_VIEW2("C04.view.repeat.shape", "C04.view.repeat.along_axis", v, 2,6, a(i, j/2), 0); }
-    { auto v = nm::unwrap(view::repeat(a, 2, -2)); EXPECT_VIEW2("C04.view.repeat.shape", "C04.view.repeat.along_axis", v, 4,3, a(i/2, j), 1); }
-    { auto v = nm::unwrap(view::repeat(a, 2, nm::None)); EXPECT_VIEW1("C04.view.repeat.shape", "C04.view.repeat.no_axis_repeats_the_flattened_array", v, 12, a((i/2)/3, (i/2)%3), 2); }
-    { auto v = nm::unwrap(view::repeat(a, std::array<int,2>{1,2}, 0)); EXPECT_VIEW2("C04.view.repeat.shape", "C04.view.repeat.per_element_repeats", v, 3,3, a(i == 0 ? Z : (size_t)1, j), 3); }
-    { auto v = nm::unwrap(view::repeat(a, std::array<int,3>{2,0,1}, 1)); EXPECT_VIEW2("C04.view.repeat.shape", "C04.view.repeat.per_element_repeats", v, 2,3, a(i, j < 2 ? Z : (size_t)2), 4); }
+void ob_c04i_repeat(const ARR<2,3>& a)
+{ PIN(a, 2,3);
+    { VIEW(v, view::repeat(a, 2, 1)); EXPECT_VIEW2("C04.view.repeat.shape", "C04.view.repeat.along_axis", v, 2,6, a(i, j/2), 0); }
+    { VIEW(v, view::repeat(a, 2, -2)); EXPECT_VIEW2("C04.view.repeat.shape", "C04.view.repeat.along_axis", v, 4,3, a(i/2, j), 1); }
+    { VIEW(v, view::repeat(a, 2, nm::None)); EXPECT_VIEW1("C04.view.repeat.shape", "C04.view.repeat.no_axis_repeats_the_flattened_array", v, 12, a((i/2)/3, (i/2)%3), 2); }
+    { VIEW(v, view::repeat(a, std::array<int,2>{1,2}, 0)); EXPECT_VIEW2("C04.view.repeat.shape", "C04.view.repeat.per_element_repeats", v, 3,3, a(i == 0 ? Z : (size_t)1, j), 3); }
+    { VIEW(v, view::repeat(a, std::array<int,3>{2,0,1}, 1)); EXPECT_VIEW2("C04.view.repeat.shape", "C04.view.repeat.per_element_repeats", v, 2,3, a(i, j < 2 ? Z : (size_t)2), 4); }
 }
 // ---- roll
-void ob_c04i_roll(const carr<2,3>& a)
-{
-    { auto v = nm::unwrap(view::roll(a, 1, 1)); EXPECT_VIEW2("C04.view.roll.shape", "C04.view.roll.along_axis", v, 2,3, a(i, (j+2)%3), 0); }
-    { auto v = nm::unwrap(view::roll(a, 4, 1)); EXPECT_VIEW2("C04.view.roll.shape", "C04.view.roll.shift_beyond_extent", v, 2,3, a(i, (j+2)%3), 1); }
-    { auto v = nm::unwrap(view::roll(a, -5, 0)); EXPECT_VIEW2("C04.view.roll.shape", "C04.view.roll.negative_shift", v, 2,3, a((i+1)%2, j), 2); }
-    { auto v = nm::unwrap(view::roll(a, -1, -1)); EXPECT_VIEW2("C04.view.roll.shape", "C04.view.roll.negative_axis", v, 2,3, a(i, (j+1)%3), 3); }
-    { auto v = nm::unwrap(view::roll(a, 2)); EXPECT_VIEW2("C04.view.roll.shape", "C04.view.roll.no_axis_rolls_the_flattened_array", v, 2,3, a(((i*3+j)+4)%6/3, ((i*3+j)+4)%6%3), 4); }
-    { auto v = nm::unwrap(view::roll(a, std::array<int,2>{1,1}, std::array<int,2>{0,1})); EXPECT_VIEW2("C04.view.roll.shape", "C04.view.roll.several_axes", v, 2,3, a((i+1)%2, (j+2)%3), 5); }
+void ob_c04i_roll(const ARR<2,3>& a)
+{ PIN(a, 2,3);
+    { VIEW(v, view::roll(a, 1, 1)); EXPECT_VIEW2("C04.view.roll.shape", "C04.view.roll.along_axis", v, 2,3, a(i, (j+2)%3), 0); }
+    { VIEW(v, view::roll(a, 4, 1)); EXPECT_VIEW2("C04.view.roll.shape", "C04.view.roll.shift_beyond_extent", v, 2,3, a(i, (j+2)%3), 1); }
+    { VIEW(v, view::roll(a, -5, 0)); EXPECT_VIEW2("C04.view.roll.shape", "C04.view.roll.negative_shift", v, 2,3, a((i+1)%2, j), 2); }
+    { VIEW(v, view::roll(a, -1, -1)); EXPECT_VIEW2("C04.view.roll.shape", "C04.view.roll.negative_axis", v, 2,3, a(i, (j+1)%3), 3); }
+    { VIEW(v, view::roll(a, 2)); EXPECT_VIEW2("C04.view.roll.shape", "C04.view.roll.no_axis_rolls_the_flattened_array", v, 2,3, a(((i*3+j)+4)%6/3, ((i*3+j)+4)%6%3), 4); }
+    { VIEW(v, view::roll(a, std::array<int,2>{1,1}, std::array<int,2>{0,1})); EXPECT_VIEW2("C04.view.roll.shape", "C04.view.roll.several_axes", v, 2,3, a((i+1)%2, (j+2)%3), 5); }
 }
 // ---- take
-void ob_c04i_take(const carr<3,2>& a)
-{
-    { auto v = nm::unwrap(view::take(a, std::array<int,4>{2,0,-1,2}, 0)); EXPECT_VIEW2("C04.view.take.shape", "C04.view.take.negative_and_repeated_entries", v, 4,2, a(i == 1 ? Z : (size_t)2, j), 0); }
-    { auto v = nm::unwrap(view::take(a, std::array<int,3>{1,0,1}, -1)); EXPECT_VIEW2("C04.view.take.shape", "C04.view.take.negative_axis", v, 3,3, a(i, j == 1 ? Z : (size_t)1), 1); }
+void ob_c04i_take(const ARR<3,2>& a)
+{ PIN(a, 3,2);
+    { VIEW(v, view::take(a, std::array<int,4>{2,0,-1,2}, 0)); EXPECT_VIEW2("C04.view.take.shape", "C04.view.take.negative_and_repeated_entries", v, 4,2, a(i == 1 ? Z : (size_t)2, j), 0); }
+    { VIEW(v, view::take(a, std::array<int,3>{1,0,1}, -1)); EXPECT_VIEW2("C04.view.take.shape", "C04.view.take.negative_axis", v, 3,3, a(i, j == 1 ? Z : (size_t)1), 1); }
 }
 // ---- compress (the condition decides the SHAPE, so it is a constant)
-void ob_c04i_compress(const carr<3,2>& a)
-{
-    { auto v = nm::unwrap(view::compress(std::array<bool,3>{true,false,true}, a, 0)); EXPECT_VIEW2("C04.view.compress.shape", "C04.view.compress.element", v, 2,2, a(i == 0 ? Z : (size_t)2, j), 0); }
-    { auto v = nm::unwrap(view::compress(std::array<bool,2>{false,true}, a, 1)); EXPECT_VIEW2("C04.view.compress.shape", "C04.view.compress.element", v, 3,1, a(i, (size_t)1), 1); }
-    { auto v = nm::unwrap(view::compress(std::array<bool,2>{true,true}, a, -2)); EXPECT_VIEW2("C04.view.compress.shape", "C04.view.compress.short_condition_covers_a_prefix", v, 2,2, a(i, j), 2); }
+void ob_c04i_compress(const ARR<3,2>& a)
+{ PIN(a, 3,2);
+    { VIEW(v, view::compress(std::array<bool,3>{true,false,true}, a, 0)); EXPECT_VIEW2("C04.view.compress.shape", "C04.view.compress.element", v, 2,2, a(i == 0 ? Z : (size_t)2, j), 0); }
+    { VIEW(v, view::compress(std::array<bool,2>{false,true}, a, 1)); EXPECT_VIEW2("C04.view.compress.shape", "C04.view.compress.element", v, 3,1, a(i, (size_t)1), 1); }
+    { VIEW(v, view::compress(std::array<bool,2>{true,true}, a, -2)); EXPECT_VIEW2("C04.view.compress.shape", "C04.view.compress.short_condition_covers_a_prefix", v, 2,2, a(i, j), 2); }
 }
 // ---- concatenate
-void ob_c04i_concatenate(const carr<2,3>& a, const carr<1,3>& b, const carr<2,1>& c)
-{
-    { auto v = nm::unwrap(view::concatenate(a, b, 0)); EXPECT_VIEW2("C04.view.concatenate.shape", "C04.view.concatenate.element", v, 3,3, (i < 2 ? a(i < 2 ? i : Z, j) : b(Z, j)), 0); }
-    { auto v = nm::unwrap(view::concatenate(a, c, -1)); EXPECT_VIEW2("C04.view.concatenate.shape", "C04.view.concatenate.negative_axis", v, 2,4, (j < 3 ? a(i, j < 3 ? j : Z) : c(i, Z)), 1); }
-    { auto v = nm::unwrap(view::concatenate(b, a, 0)); EXPECT_VIEW2("C04.view.concatenate.shape", "C04.view.concatenate.operand_order", v, 3,3, (i < 1 ? b(Z, j) : a(i < 1 ? Z : i-1, j)), 2); }
-    { auto v = nm::unwrap(view::concatenate(a, c, nm::None)); EXPECT_VIEW1("C04.view.concatenate.shape", "C04.view.concatenate.no_axis_joins_the_flattened_operands", v, 8, (i < 6 ? a((i < 6 ? i : Z)/3, (i < 6 ? i : Z)%3) : c(i < 6 ? Z : i-6, Z)), 3); }
+void ob_c04i_concatenate(const ARR<2,3>& a, const ARR<1,3>& b, const ARR<2,1>& c)
+{ PIN(a, 2,3); PIN(b, 1,3); PIN(c, 2,1);
+    { VIEW(v, view::concatenate(a, b, 0)); EXPECT_VIEW2("C04.view.concatenate.shape", "C04.view.concatenate.element", v, 3,3, (i < 2 ? a(i < 2 ? i : Z, j) : b(Z, j)), 0); }
+    { VIEW(v, view::concatenate(a, c, -1)); EXPECT_VIEW2("C04.view.concatenate.shape", "C04.view.concatenate.negative_axis", v, 2,4, (j < 3 ? a(i, j < 3 ? j : Z) : c(i, Z)), 1); }
+    { VIEW(v, view::concatenate(b, a, 0)); EXPECT_VIEW2("C04.view.concatenate.shape", "C04.view.concatenate.operand_order", v, 3,3, (i < 1 ? b(Z, j) : a(i < 1 ? Z : i-1, j)), 2); }
+    { VIEW(v, view::concatenate(a, c, nm::None)); EXPECT_VIEW1("C04.view.concatenate.shape", "C04.view.concatenate.no_axis_joins_the_flattened_operands", v, 8, (i < 6 ? a((i < 6 ? i : Z)/3, (i < 6 ? i : Z)%3) : c(i < 6 ? Z : i-6, Z)), 3); }
 }
 // ---- stack family
-void ob_c04i_stack(const carr<2,3>& a, const carr<2,3>& b)
-{
-    { auto v = nm::unwrap(view::stack(a, b)); EXPECT_VIEW3("C04.view.stack.shape", "C04.view.stack.new_leading_axis", v, 2,2,3, (i == 0 ? a(j,k) : b(j,k)), 0); }
-    { auto v = nm::unwrap(view::stack(a, b, 1)); EXPECT_VIEW3("C04.view.stack.shape", "C04.view.stack.new_middle_axis", v, 2,2,3, (j == 0 ? a(i,k) : b(i,k)), 1); }
-    { auto v = nm::unwrap(view::stack(a, b, -1)); EXPECT_VIEW3("C04.view.stack.shape", "C04.view.stack.new_trailing_axis", v, 2,3,2, (k == 0 ? a(i,j) : b(i,j)), 2); }
-    { auto v = nm::unwrap(view::dstack(a, b)); EXPECT_VIEW3("C04.view.dstack.shape", "C04.view.dstack.element", v, 2,3,2, (k == 0 ? a(i,j) : b(i,j)), 3); }
+void ob_c04i_stack(const ARR<2,3>& a, const ARR<2,3>& b)
+{ PIN(a, 2,3); PIN(b, 2,3);
+    { VIEW(v, view::stack(a, b)); EXPECT_VIEW3("C04.view.stack.shape", "C04.view.stack.new_leading_axis", v, 2,2,3, (i == 0 ? a(j,k) : b(j,k)), 0); }
+    { VIEW(v, view::stack(a, b, 1)); EXPECT_VIEW3("C04.view.stack.shape", "C04.view.stack.new_middle_axis", v, 2,2,3, (j == 0 ? a(i,k) : b(i,k)), 1); }
+    { VIEW(v, view::stack(a, b, -1)); EXPECT_VIEW3("C04.view.stack.shape", "C04.view.stack.new_trailing_axis", v, 2,3,2, (k == 0 ? a(i,j) : b(i,j)), 2); }
+    { VIEW(v, view::dstack(a, b)); EXPECT_VIEW3("C04.view.dstack.shape", "C04.view.dstack.element", v, 2,3,2, (k == 0 ? a(i,j) : b(i,j)), 3); }
 }
-void ob_c04i_hvstack(const carr<2,3>& a, const carr<1,3>& b, const carr<2,1>& c, const carr<3>& p, const carr<2>& q, const carr<3>& r)
-{
-    { auto v = nm::unwrap(view::hstack(a, c)); EXPECT_VIEW2("C04.view.hstack.shape", "C04.view.hstack.joins_columns", v, 2,4, (j < 3 ? a(i, j < 3 ? j : Z) : c(i, Z)), 0); }
-    { auto v = nm::unwrap(view::hstack(p, q)); EXPECT_VIEW1("C04.view.hstack.shape", "C04.view.hstack.vectors_are_joined_end_to_end", v, 5, (i < 3 ? p(i < 3 ? i : Z) : q(i < 3 ? Z : i-3)), 1); }
-    { auto v = nm::unwrap(view::vstack(a, b)); EXPECT_VIEW2("C04.view.vstack.shape", "C04.view.vstack.joins_rows", v, 3,3, (i < 2 ? a(i < 2 ? i : Z, j) : b(Z, j)), 2); }
-    { auto v = nm::unwrap(view::vstack(p, r)); EXPECT_VIEW2("C04.view.vstack.shape", "C04.view.vstack.vectors_become_rows", v, 2,3, (i == 0 ? p(j) : r(j)), 3); }
-    { auto v = nm::unwrap(view::dstack(p, r)); EXPECT_VIEW3("C04.view.dstack.shape", "C04.view.dstack.vectors", v, 1,3,2, (k == 0 ? p(j) : r(j)), 4); }
-    { auto v = nm::unwrap(view::column_stack(p, r)); EXPECT_VIEW2("C04.view.column_stack.shape", "C04.view.column_stack.vectors_become_columns", v, 3,2, (j == 0 ? p(i) : r(i)), 5); }
+void ob_c04i_hvstack(const ARR<2,3>& a, const ARR<1,3>& b, const ARR<2,1>& c, const ARR<3>& p, const ARR<2>& q, const ARR<3>& r)
+{ PIN(a, 2,3); PIN(b, 1,3); PIN(c, 2,1); PIN(p, 3); PIN(q, 2); PIN(r, 3);
+    { VIEW(v, view::hstack(a, c)); EXPECT_VIEW2("C04.view.hstack.shape", "C04.view.hstack.joins_columns", v, 2,4, (j < 3 ? a(i, j < 3 ? j : Z) : c(i, Z)), 0); }
+    { VIEW(v, view::hstack(p, q)); EXPECT_VIEW1("C04.view.hstack.shape", "C04.view.hstack.vectors_are_joined_end_to_end", v, 5, (i < 3 ? p(i < 3 ? i : Z) : q(i < 3 ? Z : i-3)), 1); }
+    { VIEW(v, view::vstack(a, b)); EXPECT_VIEW2("C04.view.vstack.shape", "C04.view.vstack.joins_rows", v, 3,3, (i < 2 ? a(i < 2 ? i : Z, j) : b(Z, j)), 2); }
+    { VIEW(v, view::vstack(p, r)); EXPECT_VIEW2("C04.view.vstack.shape", "C04.view.vstack.vectors_become_rows", v, 2,3, (i == 0 ? p(j) : r(j)), 3); }
+    { VIEW(v, view::dstack(p, r)); EXPECT_VIEW3("C04.view.dstack.shape", "C04.view.dstack.vectors", v, 1,3,2, (k == 0 ? p(j) : r(j)), 4); }
+    { VIEW(v, view::column_stack(p, r)); EXPECT_VIEW2("C04.view.column_stack.shape", "C04.view.column_stack.vectors_become_columns", v, 3,2, (j == 0 ? p(i) : r(i)), 5); }
 }
-void ob_c04i_column_stack2(const carr<3,2>& a, const carr<3>& p)
-{ auto v = nm::unwrap(view::column_stack(a, p)); EXPECT_VIEW2("C04.view.column_stack.shape", "C04.view.column_stack.matrix_and_vector", v, 3,3, (j < 2 ? a(i, j < 2 ? j : Z) : p(i)), 6); }
-void ob_c04i_negctl(const carr<2,3>& a)
-{
-    auto v = nm::unwrap(view::roll(a, 1, 1));
+void ob_c04i_column_stack2(const ARR<3,2>& a, const ARR<3>& p)
+{ PIN(a, 3,2); PIN(p, 3); VIEW(v, view::column_stack(a, p)); EXPECT_VIEW2("C04.view.column_stack.shape", "C04.view.column_stack.matrix_and_vector", v, 3,3, (j < 2 ? a(i, j < 2 ? j : Z) : p(i)), 6); }
+void ob_c04i_negctl(const ARR<2,3>& a)
+{ PIN(a, 2,3);
+    VIEW(v, view::roll(a, 1, 1));
     NEGCTL("C04.NEG.roll_direction", (long)v(0,0) == a(0,1), 0);
 }
